@@ -6,7 +6,7 @@
    supplies it, computed with the sha2 crate); theorems quantify over any 32-byte digest. *)
 From Coq Require Import List NArith Bool.
 From V.gen Require Consts.
-From V.common Require Import Varint.
+From V.common Require Import Wire Varint.
 Import ListNotations.
 Open Scope N_scope.
 
@@ -165,3 +165,207 @@ Definition of_component (b : list N) : option pid :=
     | None => None
     end
   else None.
+
+(* ====================================================================================== *)
+(* Round 2: every way the crate makes a peer id out of a key, the textual multiaddress,    *)
+(* serde, PeerId::random and the derived Eq/Ord.                                           *)
+(* ====================================================================================== *)
+
+(* ---------- the derivation call graph ---------- *)
+(* SHA-256 as a function parameter H (theorems quantify over every H). *)
+Definition hash := list N -> list N.
+
+(* PeerId::from_public_key_protobuf *)
+Definition derive (H : hash) (enc : list N) : pid := of_key_enc (H enc) enc.
+
+(* keys the crate can hold: crypto::PublicKey has only Ed25519, crypto::RemotePublicKey also
+   RSA (cargo feature `rsa`); Secp256k1 / ECDSA typed messages are rejected by both TryFrom impls *)
+Inductive key := KEd (k : list N) | KRsa (pkcs1 : list N).
+
+(* DER definite length / TLV as written by yasna *)
+Definition der_len (n : N) : list N :=
+  if n <? 128 then [n]
+  else let ds := digits_be 256 n in (128 + len ds) :: ds.
+Definition der (tag : N) (content : list N) : list N := tag :: der_len (len content) ++ content.
+
+(* rsa::PublicKey::encode_x509: SubjectPublicKeyInfo { { rsaEncryption, NULL }, BIT STRING } *)
+Definition RSA_OID : list N := [6; 9; 42; 134; 72; 134; 247; 13; 1; 1; 1].
+Definition spki (pkcs1 : list N) : list N :=
+  der 48 (der 48 (RSA_OID ++ [5; 0]) ++ der 3 (0 :: pkcs1)).
+
+(* the canonical protobuf message of a key: field 1 = key type, field 2 = key data *)
+Definition key_encoding (k : key) : list N :=
+  match k with
+  | KEd k => encode_ed25519 k
+  | KRsa pk => [8; 0; 18] ++ encode (len (spki pk)) ++ spki pk
+  end.
+
+(* PeerId::from_public_key (crypto::PublicKey = Ed25519 only) *)
+Definition from_public_key (H : hash) (k : list N) : pid := derive H (encode_ed25519 k).
+(* impl From<PublicKey> for PeerId / impl From<&PublicKey> for PeerId *)
+Definition from_impl (H : hash) (k : list N) : pid := from_public_key H k.
+(* crypto::PublicKey::to_peer_id = self.into() *)
+Definition publickey_to_peer_id (H : hash) (k : list N) : pid := from_impl H k.
+(* ed25519::PublicKey::to_peer_id = PublicKey::Ed25519(self.clone()).into() *)
+Definition ed25519_to_peer_id (H : hash) (k : list N) : pid := from_impl H k.
+(* RemotePublicKey::to_peer_id *)
+Definition remote_to_peer_id (H : hash) (k : key) : pid :=
+  match k with
+  | KEd k => ed25519_to_peer_id H k
+  | KRsa pk => derive H (key_encoding (KRsa pk))
+  end.
+
+(* The identity checks of the two handshakes. `dec` is RemotePublicKey::from_protobuf_encoding
+   (prost + curve / X.509 checks: a parameter), `verified` the outcome of the signature check. *)
+Definition decoder := list N -> option key.
+(* crypto/noise: parse_and_verify_peer_id *)
+Definition noise_identity (dec : decoder) (H : hash) (identity : list N) (verified : bool) : option pid :=
+  match dec identity with
+  | Some k => let p := remote_to_peer_id H k in if verified then Some p else None
+  | None => None
+  end.
+(* crypto/tls/certificate: parse_unverified + verify *)
+Definition tls_identity (dec : decoder) (H : hash) (identity : list N) (verified : bool) : option pid :=
+  match dec identity with
+  | Some k => let p := remote_to_peer_id H k in if verified then Some p else None
+  | None => None
+  end.
+(* local ids: Litep2p::new, TransportManager, Identify::new *)
+Definition local_peer_id (H : hash) (k : list N) : pid := from_public_key H k.
+Definition identify_local_peer_id (H : hash) (k : list N) : pid := publickey_to_peer_id H k.
+
+Definition pid_eqb (a b : pid) : bool :=
+  (code a =? code b) && list_eqb N.eqb (digest a) (digest b).
+
+(* PeerId::is_public_key *)
+Definition is_public_key (H : hash) (p : pid) (k : list N) : option bool :=
+  let enc := encode_ed25519 k in
+  if code p =? SHA256 then Some (pid_eqb (mkPid SHA256 (H enc)) p)
+  else if code p =? IDENTITY then Some (pid_eqb (mkPid IDENTITY enc) p)
+  else None.
+
+(* PeerId::random: identity multihash of 32 random bytes *)
+Definition random_pid (r : list N) : pid := mkPid IDENTITY r.
+
+(* The places of the Rust source where a peer id is made from key material, as
+   (file, enclosing function, kind) — tables in tools/gen_c18_sites.py. Proofs.sites_match ties
+   this list to the one extracted from the source on every check. Each line names the model
+   function that stands for the site. *)
+Definition derivation_sites : list (N * N * N) :=
+  [(0, 0, 2);    (* peer_id.rs  from_public_key -> from_public_key_protobuf     [from_public_key] *)
+   (0, 1, 1);    (* peer_id.rs  from_public_key_protobuf: PeerId { multihash }   [derive] *)
+   (0, 1, 5);    (*             ... Multihash::wrap(IDENTITY, key_enc)           [of_key_enc, inline arm] *)
+   (0, 1, 6);    (*             ... Code::Sha2_256.digest(key_enc)               [of_key_enc, hashed arm] *)
+   (0, 3, 1);    (* peer_id.rs  from_multihash, sha2-256 arm                     [admits] *)
+   (0, 3, 1);    (*             from_multihash, identity arm                     [admits] *)
+   (0, 5, 1);    (* peer_id.rs  random: PeerId { multihash }                     [random_pid] *)
+   (0, 5, 5);    (*             random: Multihash::wrap(IDENTITY, 32 bytes)      [random_pid] *)
+   (0, 6, 5);    (* peer_id.rs  is_public_key, identity arm                      [is_public_key] *)
+   (0, 6, 6);    (*             is_public_key, sha2-256 arm                      [is_public_key] *)
+   (0, 7, 3);    (* peer_id.rs  From<PublicKey>  -> from_public_key              [from_impl] *)
+   (0, 7, 3);    (*             From<&PublicKey> -> from_public_key              [from_impl] *)
+   (1, 9, 2);    (* crypto/mod.rs RemotePublicKey::to_peer_id, RSA arm -> from_public_key_protobuf(canonical) *)
+   (1, 9, 4);    (*               RemotePublicKey::to_peer_id, Ed25519 arm -> ed25519 to_peer_id *)
+   (1, 9, 8);    (*               PublicKey::to_peer_id = self.into()            [publickey_to_peer_id] *)
+   (2, 9, 8);    (* crypto/ed25519.rs to_peer_id = PublicKey::Ed25519(..).into() [ed25519_to_peer_id] *)
+   (3, 10, 4);   (* crypto/noise  parse_and_verify_peer_id -> RemotePublicKey::to_peer_id [noise_identity] *)
+   (4, 11, 4);   (* crypto/tls/certificate parse_unverified -> RemotePublicKey::to_peer_id [tls_identity] *)
+   (5, 12, 4);   (* identify.rs   Identify::new -> PublicKey::to_peer_id         [identify_local_peer_id] *)
+   (6, 12, 3);   (* lib.rs        Litep2p::new -> PeerId::from_public_key        [local_peer_id] *)
+   (7, 17, 3)].  (* transport/manager TransportManagerBuilder::build -> from_public_key [local_peer_id] *)
+
+(* ---------- the textual multiaddress ---------- *)
+Definition SLASH : N := 47.
+(* str::split('/') *)
+Fixpoint split_on (sep : N) (l : list N) : list (list N) :=
+  match l with
+  | [] => [[]]
+  | c :: t =>
+      match split_on sep t with
+      | cur :: rest => if c =? sep then [] :: cur :: rest else (c :: cur) :: rest
+      | [] => [[]]      (* unreachable: split_on never returns [] *)
+      end
+  end.
+
+Definition NAME_P2P : list N := [112; 50; 112].                                   (* "p2p" *)
+Definition NAME_IPFS : list N := [105; 112; 102; 115].                            (* "ipfs" *)
+Definition NAME_CIRCUIT : list N := [112; 50; 112; 45; 99; 105; 114; 99; 117; 105; 116].  (* "p2p-circuit" *)
+
+Inductive proto := PP2p (p : pid) | PCircuit.
+
+(* Protocol::from_str_parts in a loop, for the three protocol names the model knows
+   ("p2p" and its legacy alias "ipfs", "p2p-circuit"); any other name makes the model give up
+   (None), the harness does not generate those *)
+Fixpoint parse_parts (parts : list (list N)) : option (list proto) :=
+  match parts with
+  | [] => Some []
+  | name :: rest =>
+      if list_eqb N.eqb name NAME_P2P || list_eqb N.eqb name NAME_IPFS then
+        match rest with
+        | arg :: rest' =>
+            match of_text arg, parse_parts rest' with
+            | Some p, Some ps => Some (PP2p p :: ps)
+            | _, _ => None
+            end
+        | [] => None
+        end
+      else if list_eqb N.eqb name NAME_CIRCUIT then
+        match parse_parts rest with Some ps => Some (PCircuit :: ps) | None => None end
+      else None
+  end.
+
+(* Multiaddr::from_str followed by PeerId::try_from_multiaddr *)
+Definition of_addr_text (t : list N) : option pid :=
+  match split_on SLASH t with
+  | [] :: parts =>
+      match parse_parts parts with
+      | Some ps => match last ps PCircuit with PP2p p => Some p | PCircuit => None end
+      | None => None
+      end
+  | _ => None
+  end.
+
+(* Multiaddr::empty().with(Protocol::P2p(p)).to_string() *)
+Definition to_addr_text (p : pid) : list N := SLASH :: NAME_P2P ++ SLASH :: to_text p.
+
+(* ---------- serde ---------- *)
+(* Serialize: serialize_str(to_base58) when human readable, serialize_bytes(to_bytes) otherwise;
+   Deserialize: visit_str = from_str, visit_bytes = from_bytes *)
+Definition ser_hr (p : pid) : list N := to_text p.
+Definition de_hr (t : list N) : option pid := of_text t.
+Definition ser_bin (p : pid) : list N := to_bytes p.
+Definition de_bin (b : list N) : option pid := of_bytes b.
+(* serde_json renders the base58 string between quotes (no character needs escaping) *)
+Definition QUOTE : N := 34.
+Definition json_of (p : pid) : list N := QUOTE :: ser_hr p ++ [QUOTE].
+Definition json_plain (c : N) : bool := (32 <=? c) && (c <? 127) && negb (c =? 34) && negb (c =? 92).
+Definition of_json (j : list N) : option pid :=
+  match j with
+  | 34 :: rest =>
+      match rev rest with
+      | 34 :: body_rev => let body := rev body_rev in
+                          if forallb json_plain body then de_hr body else None
+      | _ => None
+      end
+  | _ => None
+  end.
+
+(* ---------- derived Eq / Ord ---------- *)
+(* #[derive(Ord)] on PeerId { multihash } over #[derive(Ord)] on Multihash { code: u64, size: u8,
+   digest: [u8; 64] }: lexicographic on (code, size, the full zero-padded array) *)
+Fixpoint list_cmp (a b : list N) : comparison :=
+  match a, b with
+  | [], [] => Eq
+  | [], _ :: _ => Lt
+  | _ :: _, [] => Gt
+  | x :: a', y :: b' => match x ?= y with Eq => list_cmp a' b' | c => c end
+  end.
+Definition pad64 (d : list N) : list N := d ++ repeat 0 (64 - length d).
+Definition pid_cmp (p q : pid) : comparison :=
+  match code p ?= code q with
+  | Eq => match len (digest p) ?= len (digest q) with
+          | Eq => list_cmp (pad64 (digest p)) (pad64 (digest q))
+          | c => c
+          end
+  | c => c
+  end.
